@@ -24,9 +24,11 @@
     record is judged against different bytes by design);
   * for an unknown record type the reader's unknown-type axis is at ignore (at warn it reports the type: its job);
   * the reader's default digest algorithm is one it supports;
-  * the decimal Content-Length re-parses to the block length (strconv round trip).
+  * the block is no longer than an int64 can count (the decimal Content-Length then re-parses to the block length:
+    `parseInt10Val_natToDec`, Lemmas/Decimal.lean).
 -/
 import Gowarc.Lemmas.Accept
+import Gowarc.Lemmas.Decimal
 import Gowarc.Props.C01comp
 namespace Gowarc.Props.C01
 open Gowarc Gowarc.Props.C19 Gowarc.Props.C17 Gowarc.Props.C20 Gowarc.Props.C03
@@ -101,7 +103,7 @@ theorem C01_accepts (ob op : Opts) (Ω : Oracles) (ver : String) (vid : Nat) (hv
     (herr : (build H ob Ω (bs ver) vid rt0 hdr content newId).err = none)
     (hrt : rt0 = 0 ∨ rt0 = rtOf r.hdr)
     (hclean : ∀ nv ∈ r.hdr, CleanField nv)
-    (hcl : contentLengthOf r.hdr = (content.length : Int))
+    (hsize : content.length ≤ 9223372036854775807)
     (hskip : op.skipParseBlock = ob.skipParseBlock)
     (hunk : rtOf r.hdr = 0 → op.unk = .ignore)
     (hdflt : ∃ d, newDigest op.defaultAlg op.defaultEnc = some d) :
@@ -179,7 +181,7 @@ theorem C01_accepts (ob op : Opts) (Ω : Oracles) (ver : String) (vid : Nat) (hv
           · rw [h] at hpx; simp only [Option.some.injEq] at hpx; subst hpx; exact hbare) hreq hvd
   rw [hsvh] at hclv hfinEq
   subst hrec
-  simp only at hclean hcl hunk hrt ⊢
+  simp only at hclean hunk hrt ⊢
   -- the record type
   have hrtEq : ∀ hf : Fields, rtOf hf = rtOf hdr2 → sd.hdr = hf → rtOf hf = rt := by
     intro hf h1 h2
@@ -199,15 +201,17 @@ theorem C01_accepts (ob op : Opts) (Ω : Oracles) (ver : String) (vid : Nat) (hv
   obtain ⟨dflt, hdfl⟩ := hdflt
   have hv1 : b.blockDigest.format H b.raw = bd0.format H b.raw := by rw [hbdig]
   have hspRt : sp.hdr.get (bs "Content-Type") = hdr2.get (bs "Content-Type") := by rw [hsvh]
+  have hcl2 : contentLengthOf hdr2 = (b.raw.length : Int) :=
+    contentLengthOf_natToDec hdr2 _ hsize (by rw [← hsvh]; exact hreq) hclv
   unfold finalHdr at hfinEq
   by_cases hsk : (rt == RT_Revisit || (hdr2.set (bs "WARC-Block-Digest") (b.blockDigest.format H b.raw)).has (bs "WARC-Segment-Number")) = true
   · -- no payload digest is looked at
     simp only [hsk, ↓reduceIte] at hfinEq
-    rw [hfinEq] at hclean hcl hunk hrt ⊢
+    rw [hfinEq] at hclean hunk hrt ⊢
     have hne : hdr2.set (bs "WARC-Block-Digest") (b.blockDigest.format H b.raw) ≠ [] := by
       intro he; rw [he] at a8; simp [Fields.has] at a8
     obtain ⟨r', h1, h2, h3, h4, h5, h6⟩ := accept_core H ob op Ω ver vid hver hfind hnolf htrim _ b.raw tail rt b sp hne hclean
-      ⟨by rw [a5]; exact htype, hunk, a7 hdef⟩ (hrtEq _ a6 hfinEq) hcl (by rw [a2]; exact hclv) hsb.syn hsb.blk hskip hpb
+      ⟨by rw [a5]; exact htype, hunk, a7 hdef⟩ (hrtEq _ a6 hfinEq) (by rw [a4]; exact hcl2) (by rw [a2]; exact hclv) hsb.syn hsb.blk hskip hpb
       (by rw [a1, hspRt]) dB dflt
       (by unfold digestOfField; rw [a8, a9, hv1]; simpa using hdB)
       (by unfold digestOfField; rw [hnoPDh1]; simpa using hdfl)
@@ -218,11 +222,11 @@ theorem C01_accepts (ob op : Opts) (Ω : Oracles) (ver : String) (vid : Nat) (hv
     rcases hpdig with hpn | hps
     · -- the block kind has no payload digest
       simp only [hpn] at hfinEq
-      rw [hfinEq] at hclean hcl hunk hrt ⊢
+      rw [hfinEq] at hclean hunk hrt ⊢
       have hne : hdr2.set (bs "WARC-Block-Digest") (b.blockDigest.format H b.raw) ≠ [] := by
         intro he; rw [he] at a8; simp [Fields.has] at a8
       obtain ⟨r', h1, h2, h3, h4, h5, h6⟩ := accept_core H ob op Ω ver vid hver hfind hnolf htrim _ b.raw tail rt b sp hne hclean
-        ⟨by rw [a5]; exact htype, hunk, a7 hdef⟩ (hrtEq _ a6 hfinEq) hcl (by rw [a2]; exact hclv) hsb.syn hsb.blk hskip hpb
+        ⟨by rw [a5]; exact htype, hunk, a7 hdef⟩ (hrtEq _ a6 hfinEq) (by rw [a4]; exact hcl2) (by rw [a2]; exact hclv) hsb.syn hsb.blk hskip hpb
         (by rw [a1, hspRt]) dB dflt
         (by unfold digestOfField; rw [a8, a9, hv1]; simpa using hdB)
         (by unfold digestOfField; rw [hnoPDh1]; simpa using hdfl)
@@ -232,13 +236,13 @@ theorem C01_accepts (ob op : Opts) (Ω : Oracles) (ver : String) (vid : Nat) (hv
       simp only [hps] at hfinEq
       obtain ⟨c1, c2, c3, c4, c5, c6, c7, c8, c9⟩ := set_digest_facts Ω vid (hdr2.set (bs "WARC-Block-Digest") (b.blockDigest.format H b.raw))
         (bs "WARC-Payload-Digest") (bd0.format H b.payload) hm2 hnoPDh1
-      rw [hfinEq] at hclean hcl hunk hrt ⊢
+      rw [hfinEq] at hclean hunk hrt ⊢
       have hne : (hdr2.set (bs "WARC-Block-Digest") (b.blockDigest.format H b.raw)).set (bs "WARC-Payload-Digest") (bd0.format H b.payload) ≠ [] := by
         intro he; rw [he] at c8; simp [Fields.has] at c8
       obtain ⟨dP, hdP, hsP⟩ := written_digest_silent H ob op bd0 (b.raw.drop b.headLen) hbdef hsb.enc hH
       have hpl : b.payload = b.raw.drop b.headLen := rfl
       obtain ⟨r', h1, h2, h3, h4, h5, h6⟩ := accept_core H ob op Ω ver vid hver hfind hnolf htrim _ b.raw tail rt b sp hne hclean
-        ⟨by rw [c5, a5]; exact htype, hunk, c7 (a7 hdef)⟩ (hrtEq _ (by rw [c6, a6]) hfinEq) hcl
+        ⟨by rw [c5, a5]; exact htype, hunk, c7 (a7 hdef)⟩ (hrtEq _ (by rw [c6, a6]) hfinEq) (by rw [c4, a4]; exact hcl2)
         (by rw [c2, a2]; exact hclv) hsb.syn hsb.blk hskip hpb
         (by rw [c1, a1, hspRt]) dB dP
         (by unfold digestOfField
